@@ -1071,6 +1071,17 @@ pub fn run_stable(rng: &mut StdRng, thorough: bool, t: &mut Tracer) {
             w.rsim("o.s", &coin(1_000_000, "uusd"), "uusdc");
         }
     }
+    // the witness of recorded finding F12 (first-deposit D of a skewed four-asset pool), independent of the seed
+    {
+        let mut w = PW::new(SysCfg::default(), t, "stable_first_deposit_skewed_four_assets");
+        let o = w.user(0);
+        let ok = w.creation_funds();
+        if w.create_pool(&o, &["uusd", "uusdc", "uusdt", "uweth"], &[6, 6, 18, 18], zero.clone(), SS(1), Some("s"), &ok) {
+            let lp = w.user(1);
+            w.provide(&lp, "o.s", &sorted(vec![coin(204_000_367, "uusd"), coin(611_000_510, "uusdc"), coin(1_000_000_000_000_000_727, "uusdt"), coin(1_000_000_000_000_000_156, "uweth")]), None, None, None, None, None);
+            w.swap(&lp, "o.s", &[coin(1_000_000, "uusd")], "uusdc", None, Some(Decimal::percent(50)), None);
+        }
+    }
     let n = if thorough { 120 } else { 14 };
     for i in 0..n {
         let nn = rng.gen_range(2..=4);
